@@ -152,14 +152,14 @@ def canon_state(kind, x):
     return ('array', tuple(x.shape), x.tobytes())
 
 
-def observe_dir(spec, path):
+def observe_dir(spec, path, mode='r'):
     """Open a materialised directory the way a user would; returns ('raised', msg) or ('shows', canonical state, extra)."""
     import darr
     ragged = spec['kind'].startswith('ragged')
     meta = spec['op'].startswith('meta')
     dt = dt_of(spec['dt'])
     try:
-        h = darr.RaggedArray(path) if ragged else darr.Array(path)
+        h = darr.RaggedArray(path, accessmode=mode) if ragged else darr.Array(path, accessmode=mode)
         if np.dtype(h.dtype).str != dt.str:
             return ('shows', ('wrong-dtype', np.dtype(h.dtype).str), None)
         if meta:
@@ -275,17 +275,24 @@ def execute(ctx, spec):
                 continue
             seen.add(key)
             nstates += 1
-            materialise(s, probe)
-            r = observe_dir(spec, probe)
-            if r[0] == 'raised':
-                out.cls('opened:raised')
+            bad = None
+            for mode in ('r', 'r+'):        # a user may reopen read-only or read-write after the crash
+                materialise(s, probe)
+                r = observe_dir(spec, probe, mode)
+                if r[0] == 'raised':
+                    out.cls('opened:raised')
+                    continue
+                if r[2]:
+                    out.cls(r[2])
+                if r[1] in legit_keys:
+                    out.cls('opened:legit')
+                    continue
+                bad = (r, mode)
+                break
+            if bad is None:
                 continue
-            if r[2]:
-                out.cls(r[2])
-            if r[1] in legit_keys:
-                out.cls('opened:legit')
-                continue
-            tag = f"{kind}:{spec['op']}:{spec['start']}:{what.split(':')[0] if what.startswith('torn') else 'line-state'}"
+            r, mode = bad
+            tag = f"{kind}:{spec['op']}:{spec['start']}:{what.split(':')[0] if what.startswith('torn') else 'line-state'}" + (':reopen-r+' if mode == 'r+' else '')
             desc = r[1][0] if r[1][0] != 'array' else f'array shape {r[1][1]}'
             out.viol('crash-state-shows-illegitimate-data', tag,
                      f'state {i}/{len(states) - 1} ({what}) opens and shows {desc} which is neither the state before, after, nor original + whole chunks')
